@@ -56,6 +56,16 @@ def check_enter_word(res, cfg, word, status, reset_names, help_on, has_history):
     if not word:
         return
     ob('crlf-first', word[0] in ('W:CRLF', 'W!'), "does not start by moving to a fresh line")
+    def d3():
+        # D3 holds for every Enter path, whether or not it tokenises the line (a shortcut for a blank line included)
+        emut = [l for l in word if l.startswith('E.') and l.split(':')[0].split('(')[0] not in
+                ('E.text', 'E.text_mut', 'E.cursor', 'E.len', 'E.text_range') + tuple('E.' + n for n in reset_names)]
+        ob('no-other-edit', not emut, "mutates the editor other than by rewrite and reset: %s" % emut)
+        if status == 'Ok':
+            endok = len(word) >= 2 and word[-2] in tuple('E.' + n for n in reset_names) and word[-1] in ('W:prompt', 'W:var')
+            ob('reset-then-prompt', endok, "does not end with editor reset and one prompt")
+            ob('one-prompt', count(word, lambda l: l == 'W:prompt') <= 1, "prints the prompt more than once")
+    d3()
     nmut = count(word, lambda l: l == 'E.text_mut')
     ob('rewrite-once', nmut <= 1, "hands the edit buffer out more than once")
     # everything before text_mut must not dispatch
@@ -93,13 +103,6 @@ def check_enter_word(res, cfg, word, status, reset_names, help_on, has_history):
             nxt = tail[0] if tail else ''
             ob('dispatch-line', nxt.startswith('DISPATCH(cmd(tokens(line_mut))):') and nd == 1,
                "a command is not dispatched exactly once with the command built from the line")
-    emut = [l for l in word if l.startswith('E.') and l.split(':')[0].split('(')[0] not in
-            ('E.text', 'E.text_mut', 'E.cursor', 'E.len', 'E.text_range') + tuple('E.' + n for n in reset_names)]
-    ob('no-other-edit', not emut, "mutates the editor other than by rewrite and reset: %s" % emut)
-    if status == 'Ok':
-        endok = len(word) >= 2 and word[-2] in tuple('E.' + n for n in reset_names) and word[-1] in ('W:prompt', 'W:var')
-        ob('reset-then-prompt', endok, "does not end with editor reset and one prompt")
-        ob('one-prompt', count(word, lambda l: l == 'W:prompt') <= 1, "prints the prompt more than once")
 
 
 def check_from_tokens(res, lib, ses):
